@@ -226,6 +226,36 @@ def check_loop(case):
                     out.viol('loop-wrong', 'f(%s, y=%s passed %s, z=%s passed %s): %s' % (label, ky, py, kz, pz, p), **sig)
                 if d >= 2 and ky != 'absent':
                     out.nontrivial('%s/%s/%s' % (ky, kz, py + pz))
+    # ---- a SECOND lifted lambda whose first parameter has another name, its first argument passed by keyword (both lambdas are called '<lambda>')
+    out.sub()
+    g = loop(list, tuple, dict)(lambda a, b=0: (a, b))
+    for kyg in ('scalar', 'same'):
+        try:
+            resg = g(a=build(s, xleaf), b=companion(kyg, s, 'y'))
+            out.call()
+            pg = same_shape(s, resg, lambda path, v: None if v == (xleaf(path), comp_at(kyg, s, 'y', path, 0)) and type(v) is tuple else
+                            'leaf at %s is %r, expected %r' % (list(path), v, (xleaf(path), comp_at(kyg, s, 'y', path, 0))))
+            if pg:
+                out.viol('loop-wrong', 'g = loop(..)(lambda a, b=0: (a, b)); g(a=%s, b=%s companion): %s' % (label, kyg, pg), y=kyg, z='absent', passing='kw/first', depth=min(d, 3))
+        except Exception as e:
+            out.viol('loop-raised', 'g(a=%s, b=%s companion) raised %s: %s' % (label, kyg, type(e).__name__, e), exc=type(e).__name__, y=kyg, z='absent', passing='kw/first', depth=min(d, 3))
+    # ---- dict keys that are numbers whose order as text differs from their order as values ({9, 10}, {2, 10}, {0.5, 1e-07}): same-keys companions are matched by key
+    if s == 'L' or (s[0] == 'dict' and len(s) == 3):
+        for ks in ((9, 10), (2, 10), (0.5, 1e-07), (10, 9)):
+            out.sub()
+            xk = {k: 'x%r' % (k,) for k in ks}
+            yk = {k: 'y%r' % (k,) for k in reversed(ks)}
+            wantk = {k: ('x%r' % (k,), 'y%r' % (k,), 0) for k in ks}
+            for how, call in (('pos', lambda: f(dict(xk), dict(yk))), ('kw', lambda: f(dict(xk), y=dict(yk)))):
+                try:
+                    rk = call()
+                    out.call()
+                    if type(rk) is not dict or rk != wantk:
+                        out.viol('loop-wrong', 'f({%r: .., %r: ..}, a dict with the same keys, passed %s): got %r, expected %r' % (ks[0], ks[1], how, rk, wantk), y='same-numeric-keys', z='absent',
+                                 passing=how, depth=1)
+                except Exception as e:
+                    out.viol('loop-raised', 'f(dict with keys %r, dict with the same keys) raised %s: %s' % (ks, type(e).__name__, e), exc=type(e).__name__, y='same-numeric-keys', z='absent',
+                             passing=how, depth=1)
     # ---- the library's lifted helpers
     leaves = ['Ab cd ', ' xB', 3, 2.5, None, '1,200', 'b.b']
     lf = lambda p: leaves[(sum(ord(c) if isinstance(c, str) else c + 1 for c in p) + len(p)) % len(leaves)]
